@@ -3,7 +3,7 @@
 tier=$1; shift
 cd "$(dirname "$0")/.."
 for seed in "$@"; do
-  for id in C01 C02 C03 C04 C05 C06 C07 C08 C09 C11 C12 C13 C14 C17 C18 C19 C20; do
+  for id in ${IDS:-C01 C02 C03 C04 C05 C06 C07 C08 C09 C11 C12 C13 C14 C17 C18 C19 C20}; do
     out=$(VERIF_SEED=$seed timeout 7200 ./check $id --tier $tier --no-evidence 2>&1 | grep -v conda)
     rc=$?
     echo "seed=$seed $id $(echo "$out" | grep -E '^\[C..\] done' | tail -1)"
